@@ -139,7 +139,9 @@ class _FuncAnalysis:
         self.eff, self.func = eff, func
         self.params = func.params
         self.bind = {}      # local name -> list of value exprs / ('elem', expr) / ('unpack', expr)
+        self.contents = {}  # local name -> [('val' | 'elems', expr)]: what is put INTO the container bound to the name
         self.collect_bindings()
+        self.collect_contents()
         self._memo = {}
         # flow-sensitive view: reaching definitions of local names at every statement
         from .cfg import CFG
@@ -231,7 +233,49 @@ class _FuncAnalysis:
             elif isinstance(n, ast.NamedExpr):
                 bind_target(n.target, ('val', n.value))
 
+    def collect_contents(self):
+        """x.append(v) / x.extend(vs) / x += vs / x[k] = v / x.insert(k, v) / x.add(v) / x.setdefault(k, v) / x.update(d) on a local
+        name: a list created here is only *deeply* fresh while everything put into it is"""
+        for n in ast.walk(self.func.node):
+            if isinstance(n, ast.Call) and isinstance(n.func, ast.Attribute) and isinstance(n.func.value, ast.Name) and n.args:
+                nm, m = n.func.value.id, n.func.attr
+                if m in ('append', 'add', 'appendleft'):
+                    self.contents.setdefault(nm, []).append(('val', n.args[0]))
+                elif m in ('extend', 'update', 'extendleft'):
+                    self.contents.setdefault(nm, []).append(('elems', n.args[0]))
+                elif m in ('insert', 'setdefault') and len(n.args) >= 2:
+                    self.contents.setdefault(nm, []).append(('val', n.args[1]))
+            elif isinstance(n, ast.AugAssign) and isinstance(n.target, ast.Name) and isinstance(n.op, ast.Add):
+                self.contents.setdefault(n.target.id, []).append(('elems', n.value))
+            elif isinstance(n, (ast.Assign, ast.AugAssign)):
+                for t in (n.targets if isinstance(n, ast.Assign) else [n.target]):
+                    for tt in (t.elts if isinstance(t, (ast.Tuple, ast.List)) else [t]):
+                        if isinstance(tt, ast.Subscript) and isinstance(tt.value, ast.Name):
+                            self.contents.setdefault(tt.value.id, []).append(('elems' if isinstance(tt.slice, ast.Slice) else 'val', n.value))
+                        elif isinstance(tt, ast.Subscript) and isinstance(tt.value, ast.Subscript) and isinstance(tt.value.value, ast.Name):
+                            self.contents.setdefault(tt.value.value.id, []).append(('val', n.value))
+
+    def with_contents(self, name, p, depth):
+        """a deeply fresh local container stops being deep when something that is not itself deeply fresh is put into it"""
+        if not (is_fresh(p) and p[1]) or name not in self.contents or depth > 6:
+            return p
+        key = ('contents', name)
+        if key in self._memo:
+            return FRESH if self._memo[key] else p
+        self._memo[key] = False
+        shallow = False
+        for kind, e in self.contents[name]:
+            q = self.prov(e, depth + 1) if kind == 'val' else self.elem_of(self.prov_iter(e, depth + 1))
+            if not (is_fresh(q) and q[1]):
+                shallow = True
+                break
+        self._memo[key] = shallow
+        return FRESH if shallow else p
+
     def prov_name(self, name, depth=0):
+        return self.with_contents(name, self.prov_name0(name, depth), depth)
+
+    def prov_name0(self, name, depth=0):
         if name == 'self' and self.func.cls and not self.func.is_static:
             return path('self')
         if name in self.params and name not in self.bind:
